@@ -1,7 +1,8 @@
 //! C08: gate chains built with the real `des::net` builder API and messages sent through them.
 //!
 //! Script lines (objects are named, so scripts survive line deletion):
-//!   mod m<i>                                   create module `m<i>`
+//!   mod m<i> [down=<ns>]                       create module `m<i>`; with `down` the module calls
+//!                                              `current().shutdown()` at that time (it is inactive afterwards)
 //!   gate g<j> mod=m<i>                         single gate named `g<j>` on that module
 //!   gate g<j> mod=m<i> cl=c<k> pos=<p> size=<s>   member `p` of the gate cluster `c<k>` (size `s`)
 //!   connect g<a> g<b> ch=none|<ns>             `g<a>.connect(g<b>, channel)`; channel = latency <ns>,
@@ -23,6 +24,7 @@ use std::fmt::Write;
 use std::sync::{Arc, Mutex};
 
 const TRIGGER: MessageKind = 7777;
+const SHUTDOWN: MessageKind = 7778;
 const DATA: MessageKind = 42;
 
 #[derive(Clone, Debug)]
@@ -54,6 +56,7 @@ struct Shared {
 }
 
 struct Node {
+    down: Option<u64>,
     sends: Vec<SendOp>,
     shared: Arc<Mutex<Shared>>,
 }
@@ -87,6 +90,9 @@ impl Module for Node {
             .unwrap()
             .ids
             .insert(current().id().0, current().path().as_str().to_string());
+        if let Some(d) = self.down {
+            schedule_in(Message::default().kind(SHUTDOWN), Duration::from_nanos(d));
+        }
         for op in self.sends.clone() {
             if op.from_start && op.at == 0 {
                 self.do_send(&op);
@@ -101,6 +107,10 @@ impl Module for Node {
 
     fn handle_message(&mut self, msg: Message) {
         let h = msg.header();
+        if h.kind == SHUTDOWN {
+            current().shutdown();
+            return;
+        }
         if h.kind == TRIGGER {
             if let Some(op) = self.sends.iter().find(|o| o.idx == h.id).cloned() {
                 self.do_send(&op);
@@ -166,7 +176,7 @@ fn run_case(header: &str, body: &[String], out: &mut String) {
     for line in body {
         let tok: Vec<&str> = line.split_whitespace().collect();
         match tok.as_slice() {
-            ["mod", m] => {
+            ["mod", m, ..] => {
                 if !mods.contains(&m.to_string()) {
                     mods.push(m.to_string())
                 }
@@ -235,11 +245,12 @@ fn run_case(header: &str, body: &[String], out: &mut String) {
     for line in body {
         let tok: Vec<&str> = line.split_whitespace().collect();
         match tok.as_slice() {
-            ["mod", m] => {
+            ["mod", m, rest @ ..] => {
                 if created_mods.contains(&m.to_string()) {
                     continue;
                 }
                 let node = Node {
+                    down: hval(&rest.join(" "), "down").and_then(|v| v.parse().ok()),
                     sends: sends_of.get(*m).cloned().unwrap_or_default(),
                     shared: shared.clone(),
                 };
@@ -393,7 +404,9 @@ pub fn exec(input: &str) -> String {
     out
 }
 
-const DELAYS: [u64; 6] = [1, 5, 1_000, 30_000, 1_000_000, 2_500_000_000];
+// all message times are even, shutdown times odd: no ties between a shutdown and a message passing
+const DELAYS: [u64; 6] = [2, 10, 1_000, 30_000, 1_000_000, 2_500_000_000];
+const DOWNS: [u64; 8] = [1, 3, 11, 1_001, 30_001, 1_000_001, 2_500_000_001, 2_500_030_011];
 
 pub fn gen(seed: u64, count: usize, thorough: bool) -> String {
     let mut r = Rng::new(seed);
@@ -404,8 +417,13 @@ pub fn gen(seed: u64, count: usize, thorough: bool) -> String {
         let extra = r.below(5) as usize;
         let ngates = hops + 1 + extra;
         writeln!(out, "case {k} hops={hops}").unwrap();
+        let with_down = nmods >= 2 && r.chance(1, 2);
         for m in 0..nmods {
-            writeln!(out, "mod m{m}").unwrap();
+            if with_down && r.chance(1, 3) {
+                writeln!(out, "mod m{m} down={}", r.pick(&DOWNS)).unwrap();
+            } else {
+                writeln!(out, "mod m{m}").unwrap();
+            }
         }
         // gates; some grouped into clusters on one module
         let mut g = 0;
@@ -505,10 +523,10 @@ pub fn gen(seed: u64, count: usize, thorough: bool) -> String {
             for _ in 0..reps {
                 let at = match r.below(4) {
                     0 | 1 => 0,
-                    2 => r.range(1, 2000),
+                    2 => 2 * r.range(1, 1000),
                     _ => *r.pick(&DELAYS),
                 };
-                let delay = if r.chance(1, 2) { 0 } else { *r.pick(&DELAYS) + r.below(3) };
+                let delay = if r.chance(1, 2) { 0 } else { *r.pick(&DELAYS) + 2 * r.below(3) };
                 let from = if at == 0 && r.chance(1, 2) { "start" } else { "msg" };
                 writeln!(out, "send s{s} gate=g{g} at={at} delay={delay} from={from}").unwrap();
                 s += 1;
